@@ -126,6 +126,11 @@ fn gen_script(r: &mut Rng) -> String {
         _ => {}
     }
     if r.chance(1, 10) {
+        // a tiny limit: names fail at a label, at the root octet or at the pointer; the names that
+        // were written must still decode (the limit is never raised again)
+        ops.push(format!("max:{}", r.below(90)));
+    }
+    if r.chance(1, 10) {
         ops.push("canon:1".into());
     }
     if r.chance(1, 15) {
@@ -237,7 +242,7 @@ fn built_in() -> Vec<String> {
 }
 
 pub fn run(o: &Opts, rec: &mut Recorder) {
-    rec.rule = "encoder scripts from a seeded structured generator: 2-170 names per script built from a small family of base domains and prefix labels (shared suffixes, exact repeats, mixed case, a label unique to the script to force new candidates, root, relative names), modes Compressed/Uncompressed/UncompressedLowercase/with_rdata_behavior x canonical_form, record-shaped groups with RDLENGTH place/back-patch, > 64 candidates, > 120 compressed names, a filler moving the offset across 0x3FFF, names of 240-255 octets; a case is non-trivial when at least one name was written with a compression pointer and at least two names were round-trip checked; distinct by case line".into();
+    rec.rule = "encoder scripts from a seeded structured generator: 2-170 names per script built from a small family of base domains and prefix labels (shared suffixes, exact repeats, mixed case, a label unique to the script to force new candidates, root, relative names), modes Compressed/Uncompressed/UncompressedLowercase/with_rdata_behavior x canonical_form, record-shaped groups with RDLENGTH place/back-patch, > 64 candidates, > 120 compressed names, a filler moving the offset across 0x3FFF, names of 240-255 octets, one script in ten under a limit of 0-89 octets; a case is non-trivial when at least one name was written with a compression pointer and at least two names were round-trip checked; distinct by case line".into();
     for l in o.pre_lines.clone() {
         exec(&l, rec);
     }
